@@ -607,22 +607,36 @@ func resolvedCallee(cs ssa.CallInstruction) *ssa.Function {
 // return err }`) denotes the argument passed for that parameter.
 func passThrough(v ssa.Value) ssa.Value {
 	for i := 0; i < 3; i++ {
-		call, ok := v.(*ssa.Call)
-		if !ok {
+		var call *ssa.Call
+		ri := 0
+		switch x := v.(type) {
+		case *ssa.Call:
+			call = x
+			if x.Call.Signature().Results().Len() != 1 {
+				return v
+			}
+		case *ssa.Extract:
+			c, ok := x.Tuple.(*ssa.Call)
+			if !ok {
+				return v
+			}
+			call, ri = c, x.Index
+		default:
 			return v
 		}
 		f := resolvedCallee(call)
-		if f == nil || len(f.Blocks) == 0 || f.Signature.Results().Len() != 1 {
+		if f == nil || len(f.Blocks) == 0 || ri >= f.Signature.Results().Len() {
 			return v
 		}
 		k := -1
 		for _, ret := range returnsOf(f) {
-			if len(ret.Results) != 1 {
+			if ri >= len(ret.Results) {
 				return v
 			}
 			idx := -1
+			rv := returnedValueRaw(ret, ri)
 			for pi, p := range f.Params {
-				if returnedValueRaw(ret, 0) == ssa.Value(p) {
+				if rv == ssa.Value(p) {
 					idx = pi
 				}
 			}
